@@ -13,7 +13,7 @@ for l in open("/verif/known_findings.jsonl"):
     e=json.loads(l)
     if e.get("status")=="fixed": print(e["commit"]+":"+e["property"])
 ' | sort -u); fi
-mkdir -p /tmp/mutant_root && cp /verif/known_findings.jsonl /tmp/mutant_root/
+mkdir -p /tmp/mutant_root/replays && cp /verif/known_findings.jsonl /tmp/mutant_root/ && rm -rf /tmp/mutant_root/replays/keep && cp -r /verif/replays/keep /tmp/mutant_root/replays/keep
 out=${REVERTS_OUT:-/verif/seeded/REVERTS.md}
 { echo "# Reverting each recorded fix (tools/try_reverts.sh)"; echo
   echo "| commit | property | subject | quick check on the reverted tree |"; echo "|---|---|---|---|"; } > "$out"
